@@ -86,9 +86,7 @@ func (eng *Engine) initExterns() {
 		kt, vt := csmapKV(fn)
 		m := args[0].(Term)
 		x.implicitPanic(st, Eq(m, TInt(0)), "nil", "Count on nil ConcurrentSwissMap")
-		c := UF(SI, "card", st.mapHas(m, kt, vt))
-		st.assume(Ge(c, TInt(0)))
-		k(st, c)
+		k(st, st.mapCard(m, kt, vt))
 	}
 	E["wrapper.(*ConcurrentSwissMap).StoreIf"] = func(x *Exec, st *State, cc *ssa.CallCommon, fn *ssa.Function, args []Val, resT types.Type, k func(*State, Val)) {
 		tb(x, csNote)
@@ -708,9 +706,7 @@ func (x *Exec) builtin(st *State, fr *Frame, b *ssa.Builtin, cc *ssa.CallCommon,
 			return l
 		case *types.Map:
 			mt := under(t).(*types.Map)
-			c := UF(SI, "card", st.mapHas(a, mt.Key(), mt.Elem()))
-			st.assume(Ge(c, TInt(0)))
-			return c
+			return st.mapCard(a, mt.Key(), mt.Elem())
 		case *types.Basic:
 			l := UF(SI, "str.len", a)
 			st.assume(And(Ge(l, TInt(0)), Le(l, Term{"9223372036854775807", SI})))
